@@ -5,7 +5,9 @@ PROP = dict(
     lean_modules=["Comdex.Props.C04"],
     namespaces=["Comdex.C04"],
     required_theorems=["Comdex.C04.escrow_ge_requests", "Comdex.C04.escrow_eq_requests", "Comdex.C04.pair_escrow_exact",
-                       "Comdex.C04.pair_escrow_ge_orders", "Comdex.C04.pair_escrow_ge_orders_counterexample",
+                       "Comdex.C04.pair_escrow_ge_orders", "Comdex.C04.pair_escrow_ge_orders_offset", "Comdex.C04.pair_escrow_ge_orders_modelled",
+                       "Comdex.C04.modelled_match_quote_exact", "Comdex.C04.modelled_match_base_offset", "Comdex.C04.modelled_match_deficit",
+                       "Comdex.C04.d2_offset_witness", "Comdex.C04.pair_escrow_ge_orders_counterexample",
                        "Comdex.C04.farm_custody_exact", "Comdex.C04.zero_supply_disabled",
                        "Comdex.C04.poolcoin_supply_only_by_pool_ops"],
     harness_tests=["TestC04"],
